@@ -108,6 +108,17 @@ func cmdCheck(args []string) {
 		for nm, ct := range w.contracts {
 			if hasProp(ct.Props, cfg.ID) {
 				if fn := w.fns[nm]; fn != nil {
+					if len(cfg.Scope) > 0 {
+						in := false
+						for _, sc := range cfg.Scope {
+							if matched(sc, nm) {
+								in = true
+							}
+						}
+						if !in {
+							continue
+						}
+					}
 					inSet[fn] = true
 					tagged[fn] = true
 				}
@@ -115,6 +126,7 @@ func cmdCheck(args []string) {
 		}
 	}
 	var transparent []string
+	var outOfScope []string
 	if cfg.Safety || cfg.Variant {
 		rootSet := map[*ssa.Function]bool{}
 		for _, fn := range w.fnList {
@@ -130,6 +142,18 @@ func cmdCheck(args []string) {
 			}
 			// loop-free leaf helpers without a contract are executed transparently at every call site:
 			// their internal checks are obligations of their callers, not of the helper in isolation
+			if len(cfg.Scope) > 0 {
+				in := false
+				for _, sc := range cfg.Scope {
+					if matched(sc, fnName(fn)) {
+						in = true
+					}
+				}
+				if !in {
+					outOfScope = append(outOfScope, fnName(fn))
+					continue
+				}
+			}
 			if !rootSet[fn] && w.contracts[fnName(fn)] == nil && w.transparentEligible(fn) {
 				transparent = append(transparent, fnName(fn))
 				continue
@@ -502,6 +526,7 @@ func cmdCheck(args []string) {
 		"lemmas":        len(lemmaRes),
 		"dataflow_obligations": len(dfObls),
 		"transparent_helpers_checked_at_call_sites": transparent,
+		"reachable_but_outside_claimed_scope": outOfScope,
 	}
 	if sv.Cross {
 		cov["cross_checked_by_second_solver"] = discharged - notCross
